@@ -227,6 +227,12 @@ impl Case {
     /// effect depends on the route or on the order of the calls shows up as a wrong configuration.
     pub fn generator(&self) -> Generator {
         let mut g = Generator::new(Version::try_from(self.proto).unwrap());
+        if self.raw() && self.id % 22 == 21 {
+            // the other construction path of the public API: `Generator::default()` (protocol 3) with the protocol
+            // then written into `state.version`
+            g = Generator::default();
+            g.state.version = Version::try_from(self.proto).unwrap();
+        }
         if self.raw() {
             // the configuration written straight into the public fields: no builder, hence no clamping of the rate
             // (C09 quantifies over out-of-range rates), and a used output buffer left behind by the caller
